@@ -84,6 +84,8 @@ pub struct W {
     pub event_authority: Pubkey,
 }
 
+thread_local! { static LONG_PATH: std::cell::RefCell<Vec<MarketKeys>> = const { std::cell::RefCell::new(Vec::new()) }; }
+
 pub const KEEPER_ROLES: [&str; 5] = ["MARKET_KEEPER", "ORDER_KEEPER", "ORACLE_CONTROLLER", "PRICE_KEEPER", "FEATURE_KEEPER"];
 
 pub fn ix(pid: Pubkey, accounts: impl ToAccountMetas, data: impl InstructionData) -> Instruction {
@@ -248,8 +250,19 @@ impl W {
             market_token_ata: ata(&owner, &m.market_token), initial_long_token_source: Some(ata(&owner, &m.long)), initial_short_token_source: Some(ata(&owner, &m.short)),
             system_program: sys(), token_program: spl_token::ID, associated_token_program: spl_associated_token_account::ID,
         };
-        let params = gmsol_store::ops::deposit::CreateDepositParams { execution_lamports: 5_000_000, long_token_swap_length: 0, short_token_swap_length: 0, initial_long_token_amount: long_amount, initial_short_token_amount: short_amount, min_market_token_amount: min_out, should_unwrap_native_token: false };
-        process(db, &ix(self.pid, accounts, gmsol_store::instruction::CreateDeposit { nonce, params }), &[signer])
+        let path = LONG_PATH.with(|p| p.borrow().clone());
+        let params = gmsol_store::ops::deposit::CreateDepositParams { execution_lamports: 5_000_000, long_token_swap_length: path.len() as u8, short_token_swap_length: 0, initial_long_token_amount: long_amount, initial_short_token_amount: short_amount, min_market_token_amount: min_out, should_unwrap_native_token: false };
+        let mut i = ix(self.pid, accounts, gmsol_store::instruction::CreateDeposit { nonce, params });
+        i.accounts.extend(path.iter().map(|p| meta(p.market, false, false)));
+        process(db, &i, &[signer])
+    }
+
+    /// run `f` with deposits created / executed by this thread carrying `path` as their long-side swap path
+    pub fn with_long_path<T>(path: Vec<MarketKeys>, f: impl FnOnce() -> T) -> T {
+        LONG_PATH.with(|p| *p.borrow_mut() = path);
+        let r = f();
+        LONG_PATH.with(|p| p.borrow_mut().clear());
+        r
     }
 
     pub fn execute_deposit(&self, db: &mut Db, m: &MarketKeys, owner: Pubkey, nonce: [u8; 32], signer: Pubkey, throw_on_execution_error: bool) -> std::result::Result<(), TxError> {
@@ -267,6 +280,14 @@ impl W {
         };
         let mut i = ix(self.pid, accounts, gmsol_store::instruction::ExecuteDeposit { execution_fee: 5_000, throw_on_execution_error });
         i.accounts.extend(self.feeds_sorted());
+        // the swap markets of the long-side path (unique, excluding the current market), writable
+        let mut seen = vec![m.market_token];
+        for p in LONG_PATH.with(|p| p.borrow().clone()) {
+            if !seen.contains(&p.market_token) {
+                seen.push(p.market_token);
+                i.accounts.push(meta(p.market, false, true));
+            }
+        }
         i
     }
 
